@@ -51,6 +51,16 @@ def rand_update(rng):
 
 
 def cases(rng, tier):
+    # duplicates of objects with built-up state: every way of copying x every kind of state
+    for l in core.copy_cases(rng, 2 if tier == "quick" else 12, ['html']):
+        yield Case([l], {"kind": "duplicate-of-object"})
+    # a shallow copy of the backend object: an accepted update on either one does not change how the other is rendered
+    for _ in range(15 if tier == "quick" else 150):
+        s = gen.rand_seq(rng, rng.choice(gen.KINDS), rng.randint(5, 30))
+        d1, _k = rand_update(rng)
+        d2, _k = rand_update(rng)
+        first = ["setpal 1 " + dtok(d1)] if rng.random() < 0.5 else []
+        yield Case(["new 1 " + s] + first + ["copyobj 2 1", "o 2 html", "setpal %d %s" % (rng.choice([1, 2]), dtok(d2)), "o 1 html", "o 2 html"], {"kind": "shallow-copy"})
     for c in interleaved_cases(rng, tier):
         yield c
     # objects handed back by the library's own moves / shuffles (also with frozen sets, also from a parent whose cache is warm)
@@ -122,7 +132,9 @@ DEFAULT = {'A': 'black', 'C': 'black', 'D': 'red', 'E': 'red', 'F': 'orange', 'G
 
 
 def judge(case, reals, gens, specs):
-    if reals and reals[0][0] == "childq":
+    if case.block and case.block[0].startswith("childq "):
+        if reals[0][0] != "childq":
+            return [("violation", 0, "%s -> %s" % (case.block[0], str(reals[0])[:300]))]
         ok_c, why = core.judge_childq(reals[0])
         return [] if ok_c else [("violation", 0, why)]
     out = []
